@@ -181,7 +181,7 @@ func c19Direct(c *RunCtx) {
 // reset throttles.
 func c19System(c *RunCtx) {
 	idx := 0
-	for _, kind := range []string{"reference", "reset", "resetaccess", "resetbusy", "resetunsub", "resetclose"} {
+	for _, kind := range []string{"reference", "reset", "resetaccess", "resetbusy", "resetunsub", "resetclose", "resetbusyreaccess"} {
 		for _, limit := range []int{0, 1, 2, 3, 8} {
 			for _, fan := range []int{1, 2, 3, 5, 9, 14} {
 				for _, order := range []string{"oldest", "newest", "random"} {
@@ -270,8 +270,18 @@ func c19Case(c *RunCtx, kind string, limit, fan int, order string, conns int, se
 			}
 		}
 	}
+	holdSlow := false
 	pick := func() *BusReq {
 		out := g.Bus.Outstanding()
+		if holdSlow {
+			var keep []*BusReq
+			for _, r := range out {
+				if r.Subject != "get.t.slow" {
+					keep = append(keep, r)
+				}
+			}
+			out = keep
+		}
 		if len(out) == 0 {
 			return nil
 		}
@@ -310,6 +320,55 @@ func c19Case(c *RunCtx, kind string, limit, fan int, order string, conns int, se
 		return false
 	}
 	switch kind {
+	case "resetbusyreaccess":
+		// direct subscriptions on every child, all of them busy loading a new
+		// reference when the reset arrives (re-check deferred, to be sent
+		// through the reset's throttle), then a plain reaccess event on each
+		// before they are released: the deferred re-checks are still governed
+		governed = func(r *BusReq) bool { return false }
+		for i := 0; i < fan; i++ {
+			s.Req(cls[0], fmt.Sprintf("subscribe.t.c%d", i), nil)
+		}
+		if !drain() {
+			return
+		}
+		holdSlow = true
+		for i := 0; i < fan; i++ {
+			w.Change(fmt.Sprintf("t.c%d", i), map[string]*Val{"slow": vp(Ref("t.slow"))})
+		}
+		if !drain() {
+			return
+		}
+		n0 := g.Bus.NumReqs()
+		governed = func(r *BusReq) bool { return r.ID >= n0 && r.Kind == "access" }
+		watch()
+		w.SystemReset(nil, []string{"t.>"})
+		s.Quiesce()
+		for i := 0; i < fan; i++ {
+			if i%3 != 2 {
+				w.Reaccess(fmt.Sprintf("t.c%d", i))
+			}
+		}
+		s.Quiesce()
+		holdSlow = false
+		if !drain() {
+			return
+		}
+		seen := map[string]bool{}
+		for _, r := range g.Bus.Reqs()[n0:] {
+			if r.Kind == "access" && r.CID == cls[0].CID {
+				seen[r.Name] = true
+			}
+		}
+		for i := 0; i < fan; i++ {
+			if name := fmt.Sprintf("t.c%d", i); !seen[name] {
+				fail("throttleStall", "direct subscription %s was never re-checked after the reset although everything was answered", name)
+				return
+			}
+		}
+		if limit > 0 && int(maxOut.Load()) > limit {
+			fail("boundExceeded", "%d governed access requests outstanding at once, limit %d", maxOut.Load(), limit)
+		}
 	case "resetunsub", "resetclose":
 		// direct subscriptions on every child; while the throttled re-checks
 		// are outstanding their subscriptions are released (unsubscribe or
